@@ -25,6 +25,15 @@ structure Obs where
   fwdReq : List Nat      -- targets of the Forward calls that have returned
   deriving DecidableEq, Repr
 
+/-- the observation of future `k` in a model state -/
+def observe (g : G) (k : Nat) : Obs :=
+  let f := g.futs k
+  { k := k, addr := f.addr, tmo := f.tmo, rcSet := f.rcSet, closed := f.closed, dones := f.dones,
+    registered := g.reg f.addr == some k, timerActive := f.timerActive, pendingFwd := f.forwards.length,
+    results := f.results, fwdLog := f.fwdLog, fwdReq := f.fwdReq }
+
+def observeAll (g : G) : List Obs := (List.range g.nfut).map (observe g)
+
 /-- **exactly once**: `done` is closed at most once, only by a future whose flag is set, and nothing
 reads a result before -/
 def onceOK (o : Obs) : Bool :=
@@ -49,9 +58,13 @@ def resOK (addrOf : Nat → Option Nat) (o : Obs) : Bool :=
 
 /-- **own reply**: the value answers this very request -/
 def ownOK (o : Obs) : Bool :=
-  o.results.all fun (m, _) => match m with
-    | none => true
-    | some r => r.tag == o.k
+  o.results.all fun (m, e) =>
+    (match m with
+     | none => true
+     | some r => r.tag == o.k) &&
+    (match e with
+     | some (.reply t _) => t == o.k
+     | _ => true)
 
 /-- **released** (at quiescence, no nil-rc panic): a completed future is no longer registered and its
 timer is not pending -/
@@ -88,6 +101,82 @@ def firstBad (cl : List (String × Bool)) : Option String := (cl.find? (fun c =>
 /-- verdict on a final observation -/
 def verdict (crashes : Nat) (os : List Obs) : String :=
   match firstBad (safeClauses os ++ quietClauses crashes os) with
+  | none => "ok"
+  | some c => "bad:" ++ c
+
+/-! ## outcome of one ask (end to end) -/
+
+inductive Outcome where
+  | own        -- the first reply to this very request, no error
+  | timeout    -- no value, the timeout error
+  | errreply   -- no value, the error that was replied to this very request
+  | closed     -- no value, the reason somebody passed to Close
+  | second | wrong | wrongerr | errvalue | nilok | other   -- everything else a Result() can return
+  | hang | panic | unstable | skipped                       -- … or fail to return
+  deriving DecidableEq, Repr
+
+/-- classification of what `Result()` of ask `k` returned -/
+def classify (k : Nat) : Res → Outcome
+  | (some r, none) => if r.isErr then .errvalue else if r.tag = k then .own else .wrong
+  | (some _, some _) => .other
+  | (none, some .timeout) => .timeout
+  | (none, some (.reply t _)) => if t = k then .errreply else .wrongerr
+  | (none, some (.reason _)) => .closed
+  | (none, none) => .nilok
+
+/-- what an ask may resolve to when nobody calls `Close` on its future -/
+def Outcome.allowed : Outcome → Bool
+  | .own | .timeout | .errreply => true
+  | _ => false
+
+def Outcome.name : Outcome → String
+  | .own => "own" | .timeout => "timeout" | .errreply => "errreply" | .closed => "closed"
+  | .second => "second" | .wrong => "wrong" | .wrongerr => "wrongerr" | .errvalue => "errvalue"
+  | .nilok => "nilok" | .other => "other" | .hang => "hang" | .panic => "panic"
+  | .unstable => "unstable" | .skipped => "skipped"
+
+def Outcome.all : List Outcome :=
+  [.own, .timeout, .errreply, .closed, .second, .wrong, .wrongerr, .errvalue, .nilok, .other, .hang, .panic,
+   .unstable, .skipped]
+
+inductive Recv where | echo | silent | error | double | late
+  deriving DecidableEq, Repr
+
+/-- an `ask` operation of the end-to-end suite and what the harness counted -/
+structure AskObs where
+  askers : Nat
+  each : Nat
+  recv : Recv
+  timeoutUs : Nat
+  count : Outcome → Nat
+  late : Nat          -- completed later than timeout + 10 s
+  req : Nat           -- requests the receiver handled
+  nilreq : Nat        -- requests that arrived without message
+  regdelta : Int      -- registry size after − before
+  spawnPanic : Bool
+
+/-- a timeout under which an in-process echo must arrive even on a heavily loaded machine (60 s) -/
+def generous (o : AskObs) : Bool := decide (60000000 ≤ o.timeoutUs)
+
+def askClauses (o : AskObs) : List (String × Bool) :=
+  let total := o.askers * o.each
+  [("ask-lost-or-counted-twice", (Outcome.all.map o.count).sum == total)] ++
+  (Outcome.all.filter (fun c => !c.allowed)).map (fun c => ("outcome-" ++ c.name, o.count c == 0)) ++
+  [("completed-later-than-timeout+10s", o.late == 0),
+   ("request-arrived-without-message", o.nilreq == 0),
+   ("request-duplicated", decide (o.req ≤ total)),
+   ("reply-address-not-released", o.regdelta == 0),
+   ("spawn-panicked", !o.spawnPanic),
+   ("reply-from-nowhere", !(o.recv == .silent) || (o.count .own == 0 && o.count .errreply == 0)),
+   ("value-for-error-reply", !(o.recv == .error) || o.count .own == 0),
+   ("error-for-value-reply", !(o.recv == .echo || o.recv == .double) || o.count .errreply == 0),
+   ("reply-in-time-but-no-result",
+      !(generous o && (o.recv == .echo || o.recv == .double)) || (o.count .own == total && o.req == total)),
+   ("error-reply-in-time-but-no-error",
+      !(generous o && o.recv == .error) || (o.count .errreply == total && o.req == total))]
+
+def askVerdict (o : AskObs) : String :=
+  match firstBad (askClauses o) with
   | none => "ok"
   | some c => "bad:" ++ c
 
